@@ -28,6 +28,10 @@ pub enum EvOp {
     ExtraListener,
     Probe(bool, usize),
     DropExtras,
+    /// drop a port in the middle of the program (notifications stay pending / undelivered) and
+    /// create a new one in its place
+    RecycleNotifier(usize),
+    RecycleListener(usize),
 }
 
 pub const NPROBE: usize = 6;
@@ -184,8 +188,12 @@ pub fn gen_ops(cfg: &EvCfg, rng: &mut Rng, maxops: usize) -> Vec<EvOp> {
             EvOp::ExtraNotifier
         } else if r < 92 {
             EvOp::ExtraListener
-        } else if r < 97 {
+        } else if r < 94 {
             EvOp::Probe(rng.chance(50), rng.below(NPROBE))
+        } else if r < 95 {
+            EvOp::RecycleNotifier(rng.below(cfg.nnotifiers))
+        } else if r < 97 {
+            EvOp::RecycleListener(rng.below(cfg.nlisteners))
         } else {
             EvOp::Counts
         });
@@ -317,6 +325,38 @@ fn run_mode(mode: &str, a_c: bool, b_c: bool, cfg: &EvCfg, ops: &[EvOp], case: u
                 EvOp::Probe(side_a, kind) => {
                     let obs = if *side_a { wa.probe(cfg, &svc, *kind) } else { wb.probe(cfg, &svc, *kind) };
                     line(format!("probe {} {}", if *side_a { "a" } else { "b" }, kind), obs);
+                }
+                EvOp::RecycleNotifier(i) => {
+                    let obs = match nots[*i].as_mut() {
+                        Some(n) if n.alive() => {
+                            n.drop_port();
+                            match wa.make_notifier(cfg) {
+                                Ok(p) => {
+                                    nots[*i] = Some(p);
+                                    "recreated".to_string()
+                                }
+                                Err(e) => e,
+                            }
+                        }
+                        _ => "skip".into(),
+                    };
+                    line(format!("recyclenotifier {}", i), obs);
+                }
+                EvOp::RecycleListener(i) => {
+                    let obs = match lis[*i].as_mut() {
+                        Some(l) if l.alive() => {
+                            l.drop_port();
+                            match wb.make_listener(cfg) {
+                                Ok(p) => {
+                                    lis[*i] = Some(p);
+                                    "recreated".to_string()
+                                }
+                                Err(e) => e,
+                            }
+                        }
+                        _ => "skip".into(),
+                    };
+                    line(format!("recyclelistener {}", i), obs);
                 }
                 EvOp::DropExtras => {
                     let n = extra_n.len() + extra_l.len();
